@@ -13,7 +13,7 @@
    enter C03_global_error_partial as the hypothesis on e and are measured numerically by the check. *)
 From Coq Require Import Reals ZArith QArith Qcanon List Lia Bool.
 From Coquelicot Require Import Coquelicot.
-From RV Require Import Base.Num Base.Vec Mech.Intg Spec.SpecDyn Inst Proofs.QcInst Proofs.ConvProofs Proofs.ConvReal Proofs.DerProofs Proofs.EulerConv Proofs.EulerConvVec Proofs.RK4Conv Mech.Colloc Proofs.CollocConv.
+From RV Require Import Proofs.VacuityA Base.Num Base.Vec Mech.Intg Spec.SpecDyn Inst Proofs.QcInst Proofs.ConvProofs Proofs.ConvReal Proofs.DerProofs Proofs.EulerConv Proofs.EulerConvVec Proofs.RK4Conv Mech.Colloc Proofs.CollocConv.
 Import ListNotations.
 
 Theorem C03_rk4_order_conditions :
@@ -343,3 +343,8 @@ Print Assumptions C03_dc_degree1_coefficients.
 
 Example C03_dc_nonvacuous : True /\ True.
 Proof. pose proof dc_radau1_decay as _. pose proof dc_legendre1_decay as _. split; exact I. Qed.
+
+(* further witnesses that the hypotheses of this file's theorems are met by realistic inputs (N = 1, M = 1, no controls,
+   t0 = 0, concrete grids / collocation points): proved in Proofs/VacuityA.v by the vacuity audit *)
+Example C03_more_witnesses : True.
+Proof. pose proof C03_dc_radau1_integral_hyp_satisfiable as _. pose proof C03_builtin_rescaling_hyp_satisfiable as _. pose proof C03_global_error_hyp_satisfiable as _. exact I. Qed.
